@@ -128,7 +128,7 @@ func (g *gen) meta(s int, victim int) (creator string, signers []string, class s
 	self := g.users[s].Bech
 	x := g.r.Intn(1000)
 	switch {
-	case x < 880 || victim < 0:
+	case x < 880 || victim < 0 || victim == s:
 		return self, []string{self}, "self"
 	case x < 920: // claim the victim as creator, sign as self: the ante decorator must refuse
 		return g.users[victim].Bech, []string{self}, "victim-creator/self-signer"
